@@ -55,6 +55,55 @@ def _handler_reraises(h):
     return bool(h.body) and isinstance(h.body[-1], ast.Raise)
 
 
+_REPO = None
+_PURE_BUILTINS = {"str", "int", "float", "bool", "len", "isinstance", "repr", "min", "max", "abs", "round", "sum", "any", "all", "sorted", "list", "tuple", "dict", "set", "range", "enumerate", "zip",
+                  "_unicode", "native_str", "to_unicode", "utf8"}
+
+
+def _callee_in_module(call):
+    f = call.func
+    if _REPO is None:
+        return None
+    if isinstance(f, ast.Attribute) and q.dotted(f.value) in ("self", "cls", "_Option") and _REPO.has_func(F, "_Option." + f.attr):
+        return _REPO.func(F, "_Option." + f.attr)
+    if isinstance(f, ast.Name) and _REPO.has_func(F, f.id):
+        return _REPO.func(F, f.id)
+    return None
+
+
+def rejects_or_unknown(fi, param, depth=0):
+    """(effective reject constructs, opaque calls): rejects are searched in the function and, one or two levels deep, in
+    the same-class / same-module helpers it calls; calls that are neither builtins nor methods of str/regex/datetime values
+    nor resolvable helpers are 'opaque' (they might raise: absence of a reject is then not established)."""
+    rej = list(effective_rejects(fi, param))
+    opaque = []
+    for c in q.calls(fi.node):
+        h = _callee_in_module(c)
+        if h is not None:
+            if depth < 2:
+                hp = [p for p in h.params() if p not in ("self", "cls")]
+                r2, o2 = rejects_or_unknown(h, hp[0] if hp else "", depth + 1)
+                # a helper reject only counts if it is not swallowed at the call site
+                pm = q.parent_map(fi.node)
+                hd = _caught_by(pm, c, "Exception")
+                if r2 and (hd is None or _handler_reraises(hd)):
+                    rej.append(c)
+                opaque.extend(o2)
+            else:
+                opaque.append(c)
+            continue
+        f = c.func
+        if isinstance(f, ast.Name):
+            if f.id not in _PURE_BUILTINS and f.id[:1].islower():
+                opaque.append(c)
+        elif isinstance(f, ast.Attribute):
+            root = q.dotted(f.value)
+            if root is not None and root.split(".")[0] in ("self", "cls") and not root.startswith("self._TIMEDELTA") and not root.startswith("self._DATETIME"):
+                if f.attr not in ("get",):
+                    opaque.append(c)
+    return rej, opaque
+
+
 def effective_rejects(fi, param):
     """Constructs through which ``fi`` rejects its input with an exception that leaves the function."""
     pm = q.parent_map(fi.node)
@@ -118,7 +167,9 @@ def rule_parsers(ck, entries):
             ck.note("string entry %s -> %s: every text is a valid value, no rejecting path required" % (key, meth))
             continue
         n += 1
-        rej = effective_rejects(fi, prm)
+        rej, opaque = rejects_or_unknown(fi, prm)
+        if not rej and opaque:
+            raise AnalysisError("%s: no reject found but it calls %s, which is not followed" % (fi.qualname, q.unparse(opaque[0].func)))
         ck.ob("C44.rejecting-path", fi, fi.node, len(rej) >= 1,
               "the %s parser can reject its input: at least one raise / failing lookup that is not swallowed inside the function (found %d)" % (key, len(rej)), construct="no-rejecting-path")
         for r in own_nodes(fi.node):
@@ -144,7 +195,10 @@ def rule_stores(ck, parse, sel):
         if isinstance(n, (ast.Assign, ast.AnnAssign)) and "self._value" in q.assigned_paths(n):
             cnt += 1
             v = n.value
-            ck.ob("C44.stores-parsed", parse, n, ok_val(v) or (isinstance(v, ast.List) and not v.elts), "self._value is assigned the selected parser's result (or a fresh empty list for multiple)")
+            okv_ = ok_val(v) or (isinstance(v, ast.List) and not v.elts)
+            if not okv_ and any(isinstance(x, ast.Call) and (_callee_in_module(x) is not None or (isinstance(x.func, ast.Attribute) and q.dotted(x.func.value) == "self")) for x in ast.walk(v)):
+                raise AnalysisError("_Option.parse stores the result of %s: parsing inside helpers is not followed" % q.unparse(v)[:60])
+            ck.ob("C44.stores-parsed", parse, n, okv_, "self._value is assigned the selected parser's result (or a fresh empty list for multiple)")
         elif isinstance(n, ast.Call) and isinstance(n.func, ast.Attribute) and q.dotted(n.func.value) == "self._value":
             cnt += 1
             if n.func.attr == "append":
@@ -283,6 +337,11 @@ def rule_command_line(ck):
             ops = [(st_.op, st_.detail) for st_ in ch]
             okv = okv and any(ops[i] == ("unpack", "2") and ops[i + 1][0] == ".partition" and ops[i + 1][1] == "'='" for i in range(len(ops) - 1))
         ck.ob("C44.missing-value", fi, c, okv, "the text parsed is the part after the first `=`")
+    if dropped:
+        optnames = {t.id for n_ in own_nodes(fi.node) if isinstance(n_, ast.Assign) and n_.value in subs for t in n_.targets if isinstance(t, ast.Name)}
+        handed = [c for c in q.calls(fi.node) if q.call_attr(c) != "parse" and any(q.dotted(a) in optnames or a in subs for a in list(c.args) + [k.value for k in c.keywords])]
+        if handed:
+            raise AnalysisError("parse_command_line hands the option to %s: parsing inside helpers is not followed" % q.unparse(handed[0].func))
     ck.ob("C44.missing-value", fi, fi.node, not dropped, "a recognised option is always parsed (or rejected) before the scan moves on: no path looks the option up and then drops it", construct="option-dropped")
     # the name looked up is the (normalised) text before `=`
     for sb in subs:
@@ -317,6 +376,9 @@ def rule_set(ck):
     cfg = fi.cfg
     stores = cfg.stmt_nodes(lambda n: n.kind == "stmt" and isinstance(n.ast, (ast.Assign, ast.AnnAssign)) and "self._value" in q.assigned_paths(n.ast))
     ck.floor("C44.set-typecheck", len(stores), 1, "stores in _Option.set")
+    helpers_ = [c for c in q.calls(fi.node) if isinstance(c.func, ast.Attribute) and q.dotted(c.func.value) == "self" and c.func.attr != "callback"]
+    if helpers_:
+        raise AnalysisError("_Option.set calls %s: type checks inside helpers are not followed" % q.unparse(helpers_[0].func))
     fors = [n for n in own_nodes(fi.node) if isinstance(n, ast.For) and q.dotted(n.iter) == v and isinstance(n.target, ast.Name)]
     item = fors[0].target.id if fors else None
     T_MULT, T_LIST, T_NONE, T_INST = "self.multiple", "isinstance(%s, list)" % v, "%s is None" % v, "isinstance(%s, self.type)" % v
@@ -360,7 +422,30 @@ def rule_set(ck):
 def rule_config(ck):
     """parse_config_file, decided by finite-domain evaluation: for every combination of (value kind, option.type is str,
     option.multiple) the loop body is folded (named booleans and aliases included) and must reach exactly parse / set / raise."""
-    fi = ck.func(F, "OptionParser.parse_config_file")
+    outer = ck.func(F, "OptionParser.parse_config_file")
+    fi = outer
+    call_in_outer = None
+    if not call_sites(fi, ".parse"):
+        # the per-value dispatch was moved into a private helper (module function or method): analyse it there
+        cands = []
+        for node, c in outer.cfg.find(lambda x: isinstance(x, ast.Call)):
+            h = None
+            if isinstance(c.func, ast.Name) and ck.repo.has_func(F, c.func.id):
+                h = ck.repo.func(F, c.func.id)
+            elif isinstance(c.func, ast.Attribute) and q.dotted(c.func.value) in ("self", "OptionParser") and ck.repo.has_func(F, "OptionParser." + c.func.attr):
+                h = ck.repo.func(F, "OptionParser." + c.func.attr)
+            if h is not None and call_sites(h, ".parse") and call_sites(h, ".set"):
+                cands.append((node, c, h))
+        if len(cands) != 1:
+            raise AnalysisError("parse_config_file: no option.parse site and no single helper that dispatches the value (found %d)" % len(cands))
+        call_in_outer, hc, fi = cands[0]
+        ck.use(fi)
+        hp = [p for p in fi.params() if p not in ("self", "cls")]
+        if len(hp) != len(hc.args) or hc.keywords:
+            raise AnalysisError("parse_config_file: helper %s is not called positionally" % fi.qualname)
+        subs_args = [i for i, a in enumerate(hc.args) if isinstance(resolve_local(outer, a), ast.Subscript) and "_options" not in q.unparse(resolve_local(outer, a))]
+        if len(subs_args) != 1:
+            raise AnalysisError("parse_config_file: cannot tell which helper argument is the config value")
     cfg = fi.cfg
     parses = call_sites(fi, ".parse")
     sets = call_sites(fi, ".set")
@@ -369,8 +454,12 @@ def rule_config(ck):
     if not parses[0][1].args:
         raise AnalysisError("option.parse() without argument in parse_config_file")
     V = resolve_local(fi, parses[0][1].args[0])
-    if not isinstance(V, ast.Subscript):
-        raise AnalysisError("parse_config_file: the parsed value is not an element of the config namespace")
+    if call_in_outer is None:
+        if not isinstance(V, ast.Subscript):
+            raise AnalysisError("parse_config_file: the parsed value is not an element of the config namespace")
+    else:
+        if not (isinstance(V, ast.Name) and V.id == hp[subs_args[0]]):
+            raise AnalysisError("%s: the parsed value is not the config value parameter" % fi.qualname)
     vtxt = q.unparse(V)
     recv = q.receiver(parses[0][1])
     is_V = lambda x: q.unparse(resolve_local(fi, x)) == vtxt
@@ -441,10 +530,15 @@ def rule_config(ck):
                       construct="config kind=%s type_str=%s multiple=%s -> %s" % (kind, type_str, mult, ",".join(got[0])))
     ck.floor("C44.config-dispatch", rows, 12, "rows of the config dispatch table")
     # only names of defined options are applied
-    facts = must_facts(cfg)
-    for node, c in parses + sets:
-        defined = [t for t, pol in facts[node.id] if pol and t.endswith(" in self._options")]
-        ck.ob("C44.config-dispatch", fi, c, bool(defined), "config names are applied only when they are defined options", construct="defined-guard " + q.unparse(c))
+    if call_in_outer is None:
+        facts = must_facts(cfg)
+        for node, c in parses + sets:
+            defined = [t for t, pol in facts[node.id] if pol and t.endswith(" in self._options")]
+            ck.ob("C44.config-dispatch", fi, c, bool(defined), "config names are applied only when they are defined options", construct="defined-guard " + q.unparse(c))
+    else:
+        facts = must_facts(outer.cfg)
+        defined = [t for t, pol in facts[call_in_outer.id] if pol and t.endswith(" in self._options")]
+        ck.ob("C44.config-dispatch", outer, call_in_outer.ast, bool(defined), "config names are applied only when they are defined options", construct="defined-guard helper-call")
 
 
 def _helper_resolver(ck, cls):
@@ -549,6 +643,8 @@ def rule_whole_text(ck):
                 fail_edge = "false" if t == mname else "true"
                 tg = [td.cfg.nodes[sid] for sid, kind in td.cfg.succ[tn.id] if kind == fail_edge]
                 ok_fail = ok_fail or (len(tg) == 1 and tg[0].kind == "stmt" and isinstance(tg[0].ast, ast.Raise))
+                if not ok_fail and len(tg) == 1 and tg[0].kind == "stmt" and any(isinstance(x, ast.Call) and (_callee_in_module(x) is not None) for x in ast.walk(tg[0].ast)):
+                    raise AnalysisError("_parse_timedelta: the no-match branch calls a helper (not followed)")
             ck.ob("C44.whole-text", td, m, ok_fail, "a position where no component matches raises (no break / skip)", construct="no-match-raises")
     # unknown units are not silently read as some default unit
     for c in q.calls(td.node):
@@ -625,6 +721,8 @@ def run(ck):
     ck.rule("C44.missing-value", "a missing `=value` is accepted only for bool options; the parsed text is the part after `=`")
     ck.rule("C44.set-typecheck", "_Option.set stores only None / instances of the option type (a list of such for multiple)")
     ck.rule("C44.config-dispatch", "parse_config_file parses str values of non-str or multiple options and type-checks everything else through set()")
+    global _REPO
+    _REPO = ck.repo
     parse, entries, sel = rule_dispatch(ck)
     rule_parsers(ck, entries)
     rule_stores(ck, parse, sel)
